@@ -247,10 +247,10 @@ PROPS['C13'] = {
     'lean_targets': ['EmmetProps.C13'],
     'lean_imports': ['EmmetProps.C13'],
     'theorems': [thm('EmmetProps.C13_offsets', 'for EVERY stream program and ARBITRARY field / text callbacks (text keeping the length of the newline string): offset = |value|, every returned piece sits at the offset it was given, line = number of newline pushes, column = distance to the end of the last newline string', partial=True)],
-    'domains': ['dom_markup'],
-    'rule': 'random abbreviations with empty attribute values, leaves, explicit ${n} / ${n:placeholder} fields in attribute values and leaf text, multi-line text, in html / xml / jsx / vue / xsl / svelte / haml / pug / slim with random newline (\\n, \\r\\n, \\r), indent and baseIndent; recording callbacks: EVERY invocation of output.field and output.text is re-located in the final string; tabstop indices compared with the running-base rule of the statement; non-trivial = at least two operators; distinct = distinct (abbreviation, config)',
-    'explanation': 'Position exactness is a theorem about the OutputStream model for arbitrary programs and callbacks (abstract stream model; the concrete formatter models are such programs, their closure lemmas are future work); numbering is decided by correspondence + oracle.',
-    'level_text': 'Lean 4 theorem on the OutputStream model: for every program over the stream operations and arbitrary callbacks, offsets / lines / columns handed to callbacks are exact (partial: stated on an abstract stream model, not yet instantiated by the formatter models). Tabstop numbering: correspondence + statement-derived oracle; positions additionally re-checked on every callback of every run.',
+    'domains': ['dom_markup', 'dom_stream'],
+    'rule': 'stream programs: random sequences of up to 14 OutputStream operations (push, push_string with every kind of line break, push_newline(None / True / k), push_indent, push_field, level changes) under 5 newline strings x 5 base indents x 5 indent strings x 4 text callbacks (identity, & -> &amp;, upper case, bracket wrap) x 3 field callbacks, run on the real class and on the model the theorem is about; and random abbreviations with empty attribute values, leaves, explicit ${n} / ${n:placeholder} fields in attribute values and leaf text, multi-line text, in html / xml / jsx / vue / xsl / svelte / haml / pug / slim with random newline (\\n, \\r\\n, \\r), indent and baseIndent; recording callbacks: EVERY invocation of output.field and output.text is re-located in the final string; tabstop indices compared with the running-base rule of the statement; non-trivial = at least two operators; distinct = distinct (abbreviation, config)',
+    'explanation': 'Position exactness is a theorem about the model of class OutputStream for arbitrary programs over its operations and arbitrary callbacks; that model is run against the real class on random operation programs (value, final counters and every callback invocation compared); the formatters reach the stream only through these operations. Numbering is decided by correspondence + oracle.',
+    'level_text': 'Lean 4 theorem on the OutputStream model: for every program over the stream operations and arbitrary callbacks, offsets / lines / columns handed to callbacks are exact (the stream model is tied to output_stream.py by its own correspondence on operation programs; that the formatters are such programs is by inspection of their code: they use the stream only through its methods). Tabstop numbering: correspondence + statement-derived oracle; positions additionally re-checked on every callback of every run.',
     'level_note': 'Trusted: Lean kernel + standard axioms; models tied by correspondence. Domain of the numbering clause: distinct attribute names per element, explicit fields in text only on leaves.',
     'assumptions': [CORR],
 }
